@@ -219,8 +219,8 @@ pub fn run() -> i32 {
     let cnt = Cnt { cases: AtomicU64::new(0), with_splitters: AtomicU64::new(0), interior_checked: AtomicU64::new(0), variant_calls: AtomicU64::new(0) };
     let dir = scratch_dir("c11");
     let pools: Vec<rayon::ThreadPool> = [1usize, 2, 4, 16].iter().map(|&n| rayon::ThreadPoolBuilder::new().num_threads(n).build().unwrap()).collect();
-    let lmax: [(usize, usize); 2] = if th { [(2, 8), (3, 8)] } else { [(2, 6), (3, 6)] };
-    let vmax = if th { 6 } else { 5 };
+    let lmax: [(usize, usize); 2] = if th { [(2, 7), (3, 7)] } else { [(2, 6), (3, 6)] };
+    let vmax = 5;
     for (k, lm) in lmax {
         for len in 1..=lm {
             let total = ipow(5, len);
